@@ -274,11 +274,24 @@ func (gn *Gen) Block(kind string, depth int, terminalOK bool) *Block {
 		n := 2 + gn.R.Intn(2)
 		b := &Block{Kind: "condtask", Default: -1}
 		unc := gn.R.Intn(n) // at least one unconditional flow
+		// half of them decide on a result the task itself writes (the k-th request
+		// writes k+1, so "own > 0" is false before the answer is stored and true after)
+		own := ""
+		if gn.R.Bool() {
+			gn.nloop++
+			own = fmt.Sprintf("own%d", gn.nloop)
+			b.Writes = []string{own}
+		}
 		for i := 0; i < n; i++ {
 			b.Kids = append(b.Kids, gn.Block("", depth-1, false))
-			if i == unc {
+			switch {
+			case i == unc:
 				b.Conds = append(b.Conds, nil)
-			} else {
+			case own != "" && i%2 == 0:
+				b.Conds = append(b.Conds, &Cond{Kind: "var", Var: own, Op: ">", Val: 0})
+			case own != "":
+				b.Conds = append(b.Conds, &Cond{Kind: "var", Var: own, Op: "==", Val: 0})
+			default:
 				b.Conds = append(b.Conds, gn.cond())
 			}
 		}
